@@ -448,6 +448,10 @@ WRAPS = [
     'ruint::uint!(@)',
     'ruint::__private::ruint_macro::uint_with_path!([ruint] (@))',
     'uint!({ let t = [(0x1_U8, [2_U8, 3_U8]), (4_U8, [5_U8, 6_U8])]; let _ = t[1].1[0]; { { (@) } } })',
+    # "at any nesting depth": 70 and 130 nested groups, and 40 alternating brace/paren pairs (depth 80)
+    'uint!(' + '(' * 70 + '@' + ')' * 70 + ')',
+    'uint!(' + '(' * 130 + '@' + ')' * 130 + ')',
+    'uint!(' + '{ (' * 40 + '@' + ') }' * 40 + ')',
 ]
 
 
